@@ -19,6 +19,7 @@ import (
 	"encoding/binary"
 	"encoding/hex"
 	"fmt"
+	"math/bits"
 	"sort"
 	"strings"
 	"sync"
@@ -80,27 +81,78 @@ func (s *mapStore) reader() smt.DBReader    { return s }
 func (s *mapStore) close()                  {}
 func (s *mapStore) kind() string            { return "map" }
 
-// pebbleStore: in-memory pebble written directly (as the package's own tests do).
-type pebbleStore struct{ d *db.DB }
+// One in-memory pebble instance is shared by consecutive cases (opening one costs a 4 MB arena; thousands of
+// open/close cycles per run make the check needlessly sensitive to memory pressure on a loaded machine). Every
+// store gets its own key prefix - the way framework.ABIHandler separates the tree nodes from the other state
+// (StateDBPrefixTree) - and the instance is replaced after sharedDBMaxUses stores once nobody uses it.
+const sharedDBMaxUses = 300
 
-func (s *pebbleStore) begin() smt.DBReadWriter { return s.d }
-func (s *pebbleStore) commit()                 {}
-func (s *pebbleStore) reader() smt.DBReader    { return s.d }
-func (s *pebbleStore) close()                  { s.d.Close() }
-func (s *pebbleStore) kind() string            { return "pebble" }
+var (
+	sharedMu     sync.Mutex
+	sharedDB     *db.DB
+	sharedUses   int
+	sharedActive int
+	sharedSeq    uint64
+)
 
-// batchStore: the pattern of framework.ABIHandler.Commit: reads hit the DB, writes go to a batch that is
-// applied after Update returned.
-type batchStore struct {
-	d *db.DB
-	b *db.Batch
+func acquireDB() (*db.DB, []byte) {
+	sharedMu.Lock()
+	defer sharedMu.Unlock()
+	if sharedDB != nil && sharedActive == 0 && sharedUses >= sharedDBMaxUses {
+		sharedDB.Close()
+		sharedDB = nil
+	}
+	if sharedDB == nil {
+		d, err := db.NewInMemoryDB()
+		if err != nil {
+			panic(err)
+		}
+		sharedDB, sharedUses = d, 0
+	}
+	sharedUses++
+	sharedActive++
+	sharedSeq++
+	prefix := make([]byte, 9)
+	prefix[0] = 1 // StateDBPrefixTree
+	binary.BigEndian.PutUint64(prefix[1:], sharedSeq)
+	return sharedDB, prefix
 }
 
-var treePrefix = []byte{1}
+func releaseDB() {
+	sharedMu.Lock()
+	defer sharedMu.Unlock()
+	sharedActive--
+}
+
+// pebbleStore: in-memory pebble written directly (as the package's own tests do), under a per-store prefix.
+type pebbleStore struct {
+	d      *db.DB
+	prefix []byte
+}
+
+func (s *pebbleStore) pk(k []byte) []byte {
+	return append(append(make([]byte, 0, len(s.prefix)+len(k)), s.prefix...), k...)
+}
+func (s *pebbleStore) Get(k []byte) ([]byte, bool) { return s.d.Get(s.pk(k)) }
+func (s *pebbleStore) Set(k, v []byte)             { s.d.Set(s.pk(k), v) }
+func (s *pebbleStore) Del(k []byte)                { s.d.Del(s.pk(k)) }
+func (s *pebbleStore) begin() smt.DBReadWriter     { return s }
+func (s *pebbleStore) commit()                     {}
+func (s *pebbleStore) reader() smt.DBReader        { return s }
+func (s *pebbleStore) close()                      { releaseDB() }
+func (s *pebbleStore) kind() string                { return "pebble" }
+
+// batchStore: the pattern of framework.ABIHandler.Commit: reads hit the DB, writes go to a batch that is
+// applied after Update returned (batchdb.NewWithPrefix over pebble).
+type batchStore struct {
+	d      *db.DB
+	prefix []byte
+	b      *db.Batch
+}
 
 func (s *batchStore) begin() smt.DBReadWriter {
 	s.b = s.d.NewBatch()
-	return batchdb.NewWithPrefix(s.d, s.b, treePrefix)
+	return batchdb.NewWithPrefix(s.d, s.b, s.prefix)
 }
 func (s *batchStore) commit() {
 	if s.b != nil {
@@ -108,28 +160,20 @@ func (s *batchStore) commit() {
 		s.b = nil
 	}
 }
-func (s *batchStore) reader() smt.DBReader {
-	return batchdb.NewWithPrefix(s.d, s.d.NewBatch(), treePrefix)
-}
-func (s *batchStore) close()       { s.d.Close() }
-func (s *batchStore) kind() string { return "batchdb" }
+func (s *batchStore) reader() smt.DBReader { return batchdb.NewWithPrefix(s.d, nil, s.prefix) }
+func (s *batchStore) close()               { releaseDB() }
+func (s *batchStore) kind() string         { return "batchdb" }
 
 func newStore(kind string) store {
 	switch kind {
 	case "map":
 		return newMapStore()
 	case "pebble":
-		d, err := db.NewInMemoryDB()
-		if err != nil {
-			panic(err)
-		}
-		return &pebbleStore{d: d}
+		d, prefix := acquireDB()
+		return &pebbleStore{d: d, prefix: prefix}
 	case "batchdb":
-		d, err := db.NewInMemoryDB()
-		if err != nil {
-			panic(err)
-		}
-		return &batchStore{d: d}
+		d, prefix := acquireDB()
+		return &batchStore{d: d, prefix: prefix}
 	}
 	panic("store kind")
 }
@@ -226,6 +270,27 @@ func (h *history) sample(finalKeys int) any {
 
 var keyLengths = []int{1, 2, 2, 4, 4, 32, 32, 38, 38}
 
+// irange is rapid.IntRange with a uniform distribution: rapid biases integer draws towards small values, which is
+// welcome for sizes and byte values but skews percentages and index picks (a "25 %" delete rate came out near 50 %).
+// Built from Bool draws (which are unbiased); shrinks towards lo.
+func irange(lo, hi int) *rapid.Generator[int] {
+	if hi < lo {
+		panic("irange")
+	}
+	span := uint64(hi-lo) + 1
+	k := bits.Len64(span-1) + 3
+	return rapid.Custom(func(t *rapid.T) int {
+		var v uint64
+		for _, b := range rapid.SliceOfN(rapid.Bool(), k, k).Draw(t, "bits") {
+			v <<= 1
+			if b {
+				v |= 1
+			}
+		}
+		return lo + int(v%span)
+	})
+}
+
 func randBytes(t *rapid.T, n int, label string) []byte {
 	return rapid.SliceOfN(rapid.Byte(), n, n).Draw(t, label)
 }
@@ -235,13 +300,13 @@ func flipBit(k []byte, i int) { k[i/8] ^= 0x80 >> uint(i%8) }
 // drawSplit draws the number of leading bits a derived key keeps: biased to the 8-bit subtree boundaries and the last bit.
 func drawSplit(t *rapid.T, L int) int {
 	bits := 8 * L
-	switch rapid.IntRange(0, 9).Draw(t, "splitKind") {
+	switch irange(0, 9).Draw(t, "splitKind") {
 	case 0, 1, 2:
-		return rapid.IntRange(0, bits-1).Draw(t, "split")
+		return irange(0, bits-1).Draw(t, "split")
 	case 3:
 		return bits - 1 // sibling pair: differ in the last bit only
 	case 4:
-		return rapid.IntRange(max(0, bits-4), bits-1).Draw(t, "splitLow")
+		return irange(max(0, bits-4), bits-1).Draw(t, "splitLow")
 	default:
 		// the order matters: SampledFrom favours early elements, and the deep boundaries are the rarer ones
 		var c []int
@@ -251,7 +316,7 @@ func drawSplit(t *rapid.T, L int) int {
 			}
 		}
 		if len(c) == 0 {
-			return rapid.IntRange(0, bits-1).Draw(t, "split")
+			return irange(0, bits-1).Draw(t, "split")
 		}
 		return rapid.SampledFrom(c).Draw(t, "splitBoundary")
 	}
@@ -279,10 +344,10 @@ func drawPool(t *rapid.T, L int, n int) [][]byte {
 	freshPct := rapid.SampledFrom([]int{20, 50, 5, 100}).Draw(t, "freshPct")
 	for tries := 0; len(pool) < n && tries < 4*n; tries++ {
 		var k []byte
-		if len(pool) == 0 || rapid.IntRange(0, 99).Draw(t, "fresh") < freshPct {
+		if len(pool) == 0 || irange(0, 99).Draw(t, "fresh") < freshPct {
 			k = randBytes(t, L, "key")
 		} else {
-			k = deriveKey(t, L, pool[rapid.IntRange(0, len(pool)-1).Draw(t, "base")])
+			k = deriveKey(t, L, pool[irange(0, len(pool)-1).Draw(t, "base")])
 		}
 		if !seen[string(k)] {
 			seen[string(k)] = true
@@ -293,12 +358,12 @@ func drawPool(t *rapid.T, L int, n int) [][]byte {
 }
 
 func drawValues(t *rapid.T) [][]byte {
-	n := rapid.IntRange(1, 4).Draw(t, "nValues")
+	n := irange(1, 4).Draw(t, "nValues")
 	vals := make([][]byte, 0, n+1)
 	for i := 0; i < n; i++ {
 		vals = append(vals, randBytes(t, 32, "value"))
 	}
-	if rapid.IntRange(0, 5).Draw(t, "emptyHashValue") == 0 {
+	if irange(0, 5).Draw(t, "emptyHashValue") == 0 {
 		// framework.stateSMTBatch.Del feeds H("") as a value: an ordinary non-empty 32-byte value for the trie
 		vals = append(vals, msmt.EmptyHash())
 	}
@@ -316,21 +381,21 @@ func drawHistory(t *rapid.T) (*history, [][]byte, [][]byte) {
 	delPct := rapid.SampledFrom([]int{25, 10, 50}).Draw(t, "delPct")
 	for b := 0; b < nb; b++ {
 		var bt batch
-		bt.Reopen = b > 0 && rapid.IntRange(0, 2).Draw(t, "reopen") == 0
+		bt.Reopen = b > 0 && irange(0, 2).Draw(t, "reopen") == 0
 		frac := rapid.SampledFrom([]int{60, 100, 30, 10, 60, 100, 30, 0}).Draw(t, "batchFrac") // 0 = empty batch (a block without state changes)
 		size := (len(pool)*frac + 99) / 100
 		perm := rapid.Permutation(seq(len(pool))).Draw(t, "order")
 		for _, ix := range perm[:size] {
 			o := op{Key: pool[ix]}
-			if rapid.IntRange(0, 99).Draw(t, "del") >= delPct {
-				o.Val = vals[rapid.IntRange(0, len(vals)-1).Draw(t, "val")]
+			if irange(0, 99).Draw(t, "del") >= delPct {
+				o.Val = vals[irange(0, len(vals)-1).Draw(t, "val")]
 			}
 			bt.Ops = append(bt.Ops, o)
 		}
-		if len(bt.Ops) > 0 && rapid.IntRange(0, 11).Draw(t, "dupIdentical") == 0 {
+		if len(bt.Ops) > 0 && irange(0, 11).Draw(t, "dupIdentical") == 0 {
 			// labelled sub-domain: an identical duplicate (same key, same value) somewhere in the batch
-			src := bt.Ops[rapid.IntRange(0, len(bt.Ops)-1).Draw(t, "dupSrc")]
-			at := rapid.IntRange(0, len(bt.Ops)).Draw(t, "dupAt")
+			src := bt.Ops[irange(0, len(bt.Ops)-1).Draw(t, "dupSrc")]
+			at := irange(0, len(bt.Ops)).Draw(t, "dupAt")
 			bt.Ops = append(bt.Ops[:at], append([]op{src}, bt.Ops[at:]...)...)
 		}
 		h.Batches = append(h.Batches, bt)
@@ -683,14 +748,14 @@ func drawQueries(t *rapid.T, L int, kv map[string][]byte, pool [][]byte) ([][]by
 			if len(present) == 0 {
 				k = randBytes(t, L, "qFar")
 			} else {
-				k = present[rapid.IntRange(0, len(present)-1).Draw(t, "qPresent")]
+				k = present[irange(0, len(present)-1).Draw(t, "qPresent")]
 			}
 		case "pool":
-			k = pool[rapid.IntRange(0, len(pool)-1).Draw(t, "qPool")]
+			k = pool[irange(0, len(pool)-1).Draw(t, "qPool")]
 		case "near":
-			base := pool[rapid.IntRange(0, len(pool)-1).Draw(t, "qNearBase")]
+			base := pool[irange(0, len(pool)-1).Draw(t, "qNearBase")]
 			if len(present) > 0 && rapid.Bool().Draw(t, "qNearPresent") {
-				base = present[rapid.IntRange(0, len(present)-1).Draw(t, "qNearPresentIx")]
+				base = present[irange(0, len(present)-1).Draw(t, "qNearPresentIx")]
 			}
 			k = deriveKey(t, L, base)
 		case "far":
@@ -699,7 +764,7 @@ func drawQueries(t *rapid.T, L int, kv map[string][]byte, pool [][]byte) ([][]by
 			if len(qs) == 0 {
 				k = randBytes(t, L, "qFar")
 			} else {
-				k = qs[rapid.IntRange(0, len(qs)-1).Draw(t, "qDup")]
+				k = qs[irange(0, len(qs)-1).Draw(t, "qDup")]
 			}
 		}
 		if avoid && filter.add(k) {
@@ -897,13 +962,13 @@ func drawOtherKey(t *rapid.T, L int, kv map[string][]byte, pool [][]byte, not []
 	present := sortedKeys(kv)
 	for tries := 0; tries < 4; tries++ {
 		var k []byte
-		switch rapid.IntRange(0, 3).Draw(t, "otherKeyKind") {
+		switch irange(0, 3).Draw(t, "otherKeyKind") {
 		case 0:
 			if len(present) > 0 {
-				k = present[rapid.IntRange(0, len(present)-1).Draw(t, "otherPresent")]
+				k = present[irange(0, len(present)-1).Draw(t, "otherPresent")]
 			}
 		case 1:
-			k = pool[rapid.IntRange(0, len(pool)-1).Draw(t, "otherPool")]
+			k = pool[irange(0, len(pool)-1).Draw(t, "otherPool")]
 		case 2:
 			k = deriveKey(t, L, not)
 		}
@@ -926,23 +991,23 @@ func tamper(t *rapid.T, w *wire, kind string, r *runner, pool, vals [][]byte) (*
 	nq := len(c.Q)
 	qi := 0
 	if nq > 0 {
-		qi = rapid.IntRange(0, nq-1).Draw(t, "tq")
+		qi = irange(0, nq-1).Draw(t, "tq")
 	}
 	switch kind {
 	case "value-bit":
 		if len(c.Q[qi].Value) == 0 {
 			return nil, "", false
 		}
-		b := rapid.IntRange(0, 8*len(c.Q[qi].Value)-1).Draw(t, "bit")
+		b := irange(0, 8*len(c.Q[qi].Value)-1).Draw(t, "bit")
 		flipBit(c.Q[qi].Value, b)
 		return c, fmt.Sprintf("flip bit %d of query[%d].value", b, qi), true
 	case "value-other":
 		if len(c.Q[qi].Value) == 0 {
 			return nil, "", false
 		}
-		v := vals[rapid.IntRange(0, len(vals)-1).Draw(t, "v")]
-		if rapid.IntRange(0, 3).Draw(t, "vKind") == 0 {
-			v = v[:rapid.IntRange(1, 31).Draw(t, "vLen")]
+		v := vals[irange(0, len(vals)-1).Draw(t, "v")]
+		if irange(0, 3).Draw(t, "vKind") == 0 {
+			v = v[:irange(1, 31).Draw(t, "vLen")]
 		}
 		c.Q[qi].Value = cp(v)
 		return c, fmt.Sprintf("replace query[%d].value by %x", qi, v), true
@@ -956,10 +1021,10 @@ func tamper(t *rapid.T, w *wire, kind string, r *runner, pool, vals [][]byte) (*
 		if len(c.Q[qi].Value) != 0 {
 			return nil, "", false
 		}
-		c.Q[qi].Value = cp(vals[rapid.IntRange(0, len(vals)-1).Draw(t, "v")])
+		c.Q[qi].Value = cp(vals[irange(0, len(vals)-1).Draw(t, "v")])
 		return c, fmt.Sprintf("set query[%d].value (absence -> inclusion)", qi), true
 	case "key-bit":
-		b := rapid.IntRange(0, 8*L-1).Draw(t, "bit")
+		b := irange(0, 8*L-1).Draw(t, "bit")
 		flipBit(c.Q[qi].Key, b)
 		return c, fmt.Sprintf("flip bit %d of query[%d].key", b, qi), true
 	case "key-other":
@@ -969,7 +1034,7 @@ func tamper(t *rapid.T, w *wire, kind string, r *runner, pool, vals [][]byte) (*
 		c.Keys[qi] = drawOtherKey(t, L, r.kv, pool, c.Keys[qi])
 		return c, fmt.Sprintf("replace queryKey[%d] by %x", qi, c.Keys[qi]), true
 	case "querykey-bit":
-		b := rapid.IntRange(0, 8*L-1).Draw(t, "bit")
+		b := irange(0, 8*L-1).Draw(t, "bit")
 		flipBit(c.Keys[qi], b)
 		return c, fmt.Sprintf("flip bit %d of queryKey[%d]", b, qi), true
 	case "bitmap-bit":
@@ -977,15 +1042,15 @@ func tamper(t *rapid.T, w *wire, kind string, r *runner, pool, vals [][]byte) (*
 			if L < 1 {
 				return nil, "", false
 			}
-			c.Q[qi].Bitmap = []byte{byte(1 << uint(rapid.IntRange(0, 7).Draw(t, "bit")))}
+			c.Q[qi].Bitmap = []byte{byte(1 << uint(irange(0, 7).Draw(t, "bit")))}
 			return c, fmt.Sprintf("set query[%d].bitmap to %x", qi, c.Q[qi].Bitmap), true
 		}
-		b := rapid.IntRange(0, 8*len(c.Q[qi].Bitmap)-1).Draw(t, "bit")
+		b := irange(0, 8*len(c.Q[qi].Bitmap)-1).Draw(t, "bit")
 		flipBit(c.Q[qi].Bitmap, b)
 		return c, fmt.Sprintf("flip bit %d of query[%d].bitmap", b, qi), true
 	case "bitmap-resize":
 		bm := c.Q[qi].Bitmap
-		switch rapid.IntRange(0, 3).Draw(t, "resize") {
+		switch irange(0, 3).Draw(t, "resize") {
 		case 0:
 			if len(bm) == 0 {
 				return nil, "", false
@@ -1000,12 +1065,12 @@ func tamper(t *rapid.T, w *wire, kind string, r *runner, pool, vals [][]byte) (*
 			if len(bm) >= L { // longer bitmaps than the key are the S3 panic (C09), not this property
 				return nil, "", false
 			}
-			c.Q[qi].Bitmap = append([]byte{byte(rapid.IntRange(1, 255).Draw(t, "newTop"))}, bm...)
+			c.Q[qi].Bitmap = append([]byte{byte(irange(1, 255).Draw(t, "newTop"))}, bm...)
 		case 3:
 			if len(bm) >= L {
 				return nil, "", false
 			}
-			c.Q[qi].Bitmap = append(cp(bm), byte(rapid.IntRange(0, 255).Draw(t, "newLow")))
+			c.Q[qi].Bitmap = append(cp(bm), byte(irange(0, 255).Draw(t, "newLow")))
 			if len(bm) == 0 && c.Q[qi].Bitmap[0] == 0 {
 				c.Q[qi].Bitmap[0] = 1
 			}
@@ -1015,31 +1080,31 @@ func tamper(t *rapid.T, w *wire, kind string, r *runner, pool, vals [][]byte) (*
 		if len(c.Sib) == 0 {
 			return nil, "", false
 		}
-		i := rapid.IntRange(0, len(c.Sib)-1).Draw(t, "sib")
+		i := irange(0, len(c.Sib)-1).Draw(t, "sib")
 		c.Sib = append(c.Sib[:i], c.Sib[i+1:]...)
 		return c, fmt.Sprintf("drop sibling[%d]", i), true
 	case "sibling-bit":
 		if len(c.Sib) == 0 {
 			return nil, "", false
 		}
-		i := rapid.IntRange(0, len(c.Sib)-1).Draw(t, "sib")
-		b := rapid.IntRange(0, 255).Draw(t, "bit")
+		i := irange(0, len(c.Sib)-1).Draw(t, "sib")
+		b := irange(0, 255).Draw(t, "bit")
 		flipBit(c.Sib[i], b)
 		return c, fmt.Sprintf("flip bit %d of sibling[%d]", b, i), true
 	case "sibling-insert":
-		i := rapid.IntRange(0, len(c.Sib)).Draw(t, "sib")
+		i := irange(0, len(c.Sib)).Draw(t, "sib")
 		var hsh []byte
-		switch rapid.IntRange(0, 3).Draw(t, "insKind") {
+		switch irange(0, 3).Draw(t, "insKind") {
 		case 0:
 			hsh = msmt.EmptyHash()
 		case 1:
 			if len(c.Sib) > 0 {
-				hsh = cp(c.Sib[rapid.IntRange(0, len(c.Sib)-1).Draw(t, "insDup")])
+				hsh = cp(c.Sib[irange(0, len(c.Sib)-1).Draw(t, "insDup")])
 			}
 		case 2:
 			if len(r.kv) > 0 {
 				ks := sortedKeys(r.kv)
-				k := ks[rapid.IntRange(0, len(ks)-1).Draw(t, "insLeaf")]
+				k := ks[irange(0, len(ks)-1).Draw(t, "insLeaf")]
 				hsh = msmt.LeafHash(k, r.kv[string(k)])
 			}
 		}
@@ -1052,15 +1117,15 @@ func tamper(t *rapid.T, w *wire, kind string, r *runner, pool, vals [][]byte) (*
 		if len(c.Sib) < 2 {
 			return nil, "", false
 		}
-		i := rapid.IntRange(0, len(c.Sib)-2).Draw(t, "sib")
-		j := rapid.IntRange(i+1, len(c.Sib)-1).Draw(t, "sib2")
+		i := irange(0, len(c.Sib)-2).Draw(t, "sib")
+		j := irange(i+1, len(c.Sib)-1).Draw(t, "sib2")
 		c.Sib[i], c.Sib[j] = c.Sib[j], c.Sib[i]
 		return c, fmt.Sprintf("swap sibling[%d] and sibling[%d]", i, j), true
 	case "queries-swap":
 		if nq < 2 {
 			return nil, "", false
 		}
-		j := rapid.IntRange(0, nq-2).Draw(t, "tq2")
+		j := irange(0, nq-2).Draw(t, "tq2")
 		if j >= qi {
 			j++
 		}
@@ -1081,25 +1146,25 @@ func tamper(t *rapid.T, w *wire, kind string, r *runner, pool, vals [][]byte) (*
 		// one forged (queryKey, query) pair appended: whatever it says must be true if the proof still verifies
 		k := drawOtherKey(t, L, r.kv, pool, c.Keys[qi])
 		f := tq{Key: cp(k)}
-		switch rapid.IntRange(0, 2).Draw(t, "forgedKey") {
+		switch irange(0, 2).Draw(t, "forgedKey") {
 		case 0:
 			f.Key = drawOtherKey(t, L, r.kv, pool, k)
 		}
-		switch rapid.IntRange(0, 2).Draw(t, "forgedValue") {
+		switch irange(0, 2).Draw(t, "forgedValue") {
 		case 0:
 			f.Value = []byte{}
 		case 1:
-			f.Value = cp(vals[rapid.IntRange(0, len(vals)-1).Draw(t, "v")])
+			f.Value = cp(vals[irange(0, len(vals)-1).Draw(t, "v")])
 		default:
 			f.Value = randBytes(t, 32, "forgedRandomValue")
 		}
-		switch rapid.IntRange(0, 2).Draw(t, "forgedBitmap") {
+		switch irange(0, 2).Draw(t, "forgedBitmap") {
 		case 0:
 			f.Bitmap = cp(c.Q[qi].Bitmap)
 		case 1:
-			f.Bitmap = []byte{byte(rapid.IntRange(1, 255).Draw(t, "forgedBm"))}
+			f.Bitmap = []byte{byte(irange(1, 255).Draw(t, "forgedBm"))}
 		default:
-			n := rapid.IntRange(1, min(L, 3)).Draw(t, "forgedBmLen")
+			n := irange(1, min(L, 3)).Draw(t, "forgedBmLen")
 			f.Bitmap = randBytes(t, n, "forgedBmBytes")
 			if f.Bitmap[0] == 0 {
 				f.Bitmap[0] = 1
@@ -1110,14 +1175,14 @@ func tamper(t *rapid.T, w *wire, kind string, r *runner, pool, vals [][]byte) (*
 		return c, fmt.Sprintf("append forged pair queryKey=%x key=%x value=%x bitmap=%x", k, f.Key, f.Value, f.Bitmap), true
 	case "root-other":
 		var o []byte
-		switch rapid.IntRange(0, 3).Draw(t, "rootKind") {
+		switch irange(0, 3).Draw(t, "rootKind") {
 		case 0:
 			o = msmt.EmptyHash()
 		case 1:
-			o = cp(r.roots[rapid.IntRange(0, len(r.roots)-1).Draw(t, "oldRoot")])
+			o = cp(r.roots[irange(0, len(r.roots)-1).Draw(t, "oldRoot")])
 		case 2:
 			o = cp(w.Root)
-			flipBit(o, rapid.IntRange(0, 255).Draw(t, "bit"))
+			flipBit(o, irange(0, 255).Draw(t, "bit"))
 		default:
 			o = randBytes(t, 32, "randomRoot")
 		}
@@ -1138,7 +1203,7 @@ func tamper(t *rapid.T, w *wire, kind string, r *runner, pool, vals [][]byte) (*
 
 // checkTampered: if the tampered proof still verifies, everything it says must be true and the root the real one.
 func checkTampered(t *rapid.T, r *runner, honest *wire, st proofStats, pool, vals [][]byte, ctx func() string) {
-	n := rapid.IntRange(1, 4).Draw(t, "nTamper")
+	n := irange(1, 4).Draw(t, "nTamper")
 	for i := 0; i < n; i++ {
 		var c *wire
 		var desc, kind string
@@ -1213,7 +1278,7 @@ func TestHistory(t *testing.T) {
 		ctx := func() string { return "history:\n" + h.String() }
 		proofAfter := map[int]bool{len(h.Batches) - 1: true}
 		if len(h.Batches) > 1 && rapid.Bool().Draw(t, "midProof") {
-			proofAfter[rapid.IntRange(0, len(h.Batches)-2).Draw(t, "midProofAt")] = true
+			proofAfter[irange(0, len(h.Batches)-2).Draw(t, "midProofAt")] = true
 		}
 		for i := range h.Batches {
 			if s := r.apply(i); s != "" {
@@ -1222,7 +1287,7 @@ func TestHistory(t *testing.T) {
 			if !proofAfter[i] {
 				continue
 			}
-			nSets := rapid.IntRange(1, 2).Draw(t, "querySets")
+			nSets := irange(1, 2).Draw(t, "querySets")
 			for s := 0; s < nSets; s++ {
 				qs, kinds := drawQueries(t, h.L, r.kv, pool)
 				pctx := func() string { return fmt.Sprintf("proof taken after batch %d\n%s", i, ctx()) }
@@ -1244,6 +1309,9 @@ func TestHistory(t *testing.T) {
 				}
 				if hasDup(qs) {
 					labels = append(labels, "proof:duplicate-query-keys")
+				}
+				if pathAlias(h.L, r.kv, qs) {
+					labels = append(labels, "proof:aliasing-paths(C10-F1 shape)")
 				}
 				evid.R.Case(fmt.Sprintf("p|%d|%x|%s", i, qs, h.key()), st.present > 0 && st.absent > 0, func() any {
 					return map[string]any{"kind": "proof", "keyLength": h.L, "store": h.Store, "mapKeys": len(r.kv), "queryKeys": hexAll(qs), "present": st.present, "absent": st.absent}
@@ -1326,18 +1394,18 @@ func hexAll(qs [][]byte) []string {
 func TestTwoRoutes(t *testing.T) {
 	rapid.Check(t, func(t *rapid.T) {
 		L := rapid.SampledFrom(keyLengths).Draw(t, "L")
-		pool := drawPool(t, L, rapid.IntRange(2, 24).Draw(t, "poolSize"))
+		pool := drawPool(t, L, irange(2, 24).Draw(t, "poolSize"))
 		vals := drawValues(t)
-		nFinal := rapid.IntRange(0, len(pool)).Draw(t, "nFinal")
+		nFinal := irange(0, len(pool)).Draw(t, "nFinal")
 		final := map[string][]byte{}
 		for _, k := range pool[:nFinal] {
-			final[string(k)] = vals[rapid.IntRange(0, len(vals)-1).Draw(t, "val")]
+			final[string(k)] = vals[irange(0, len(vals)-1).Draw(t, "val")]
 		}
 		extras := pool[nFinal:]
 		// route A: final keys in 1..3 batches, random order
 		hA := &history{L: L, Store: rapid.SampledFrom([]string{"map", "pebble", "batchdb"}).Draw(t, "storeA")}
 		permA := rapid.Permutation(seq(nFinal)).Draw(t, "orderA")
-		cut := rapid.IntRange(0, nFinal).Draw(t, "cutA")
+		cut := irange(0, nFinal).Draw(t, "cutA")
 		for _, part := range [][]int{permA[:cut], permA[cut:]} {
 			var b batch
 			for _, ix := range part {
@@ -1351,7 +1419,7 @@ func TestTwoRoutes(t *testing.T) {
 		hB := &history{L: L, Store: rapid.SampledFrom([]string{"map", "pebble", "batchdb"}).Draw(t, "storeB")}
 		var b1, b2, b3 batch
 		for _, ix := range rapid.Permutation(seq(len(pool))).Draw(t, "orderB1") {
-			b1.Ops = append(b1.Ops, op{pool[ix], vals[rapid.IntRange(0, len(vals)-1).Draw(t, "valB")]})
+			b1.Ops = append(b1.Ops, op{pool[ix], vals[irange(0, len(vals)-1).Draw(t, "valB")]})
 		}
 		for _, ix := range rapid.Permutation(seq(nFinal)).Draw(t, "orderB2") {
 			b2.Ops = append(b2.Ops, op{pool[ix], final[string(pool[ix])]})
@@ -1399,17 +1467,17 @@ func TestTwoRoutes(t *testing.T) {
 
 func TestEventPattern(t *testing.T) {
 	rapid.Check(t, func(t *rapid.T) {
-		n := rapid.IntRange(0, 24).Draw(t, "events")
+		n := irange(0, 24).Draw(t, "events")
 		var events []*blockchain.Event
 		topicPool := [][]byte{}
 		for i := 0; i < 5; i++ {
 			topicPool = append(topicPool, rapid.SliceOfN(rapid.Byte(), 0, 40).Draw(t, "topic"))
 		}
 		for i := 0; i < n; i++ {
-			nt := rapid.IntRange(1, 4).Draw(t, "topics")
+			nt := irange(1, 4).Draw(t, "topics")
 			var topics []codec.Hex
 			for j := 0; j < nt; j++ {
-				topics = append(topics, topicPool[rapid.IntRange(0, len(topicPool)-1).Draw(t, "topicIx")])
+				topics = append(topics, topicPool[irange(0, len(topicPool)-1).Draw(t, "topicIx")])
 			}
 			data := rapid.SliceOfN(rapid.Byte(), 0, 80).Draw(t, "data")
 			events = append(events, blockchain.NewEventFromValues("mod", "evt", data, topics, 7, uint32(i)))
@@ -1431,9 +1499,9 @@ func TestEventPattern(t *testing.T) {
 		if err != nil || !bytes.Equal(got, want) {
 			t.Fatalf("CalculateEventRoot = %x (err %v), LIP-0039 root of its key/value pairs = %x; %d events", got, err, want, n)
 		}
-		d, _ := db.NewInMemoryDB()
-		defer d.Close()
-		got2, err := smt.NewTrie(msmt.EmptyHash(), 12).Update(d, keys, vals)
+		st := newStore("pebble")
+		defer st.close()
+		got2, err := smt.NewTrie(msmt.EmptyHash(), 12).Update(st.begin(), keys, vals)
 		if err != nil || !bytes.Equal(got2, want) {
 			t.Fatalf("single Update with %d 12-byte keys = %x (err %v), want %x", len(keys), got2, err, want)
 		}
